@@ -182,6 +182,11 @@ func c13(c *core.Ctx) {
 	c.Section("mass-expiry", c.N(60, 20000), func(_ int64, r *gen.Rand) {
 		c13Mass(c, r)
 	})
+	// a handler that calls Collect itself (with a later time) while the outer Collect is delivering: the nested call is
+	// a Collect like any other
+	c.Section("reentrant-collect", c.N(300, 100000), func(_ int64, r *gen.Rand) {
+		c13Reentrant(c, r)
+	})
 	// extreme instants: zero time, epoch, year 1, 2262 (UnixNano limit), 9999
 	c.SectionSerial("extreme-times", 1, func(_ int64, _ *gen.Rand) {
 		pts := []time.Time{{}, time.Unix(0, 0), time.Date(1, 1, 1, 0, 0, 1, 0, time.UTC), time.Unix(0, 1<<63-1), time.Unix(0, 1<<63-1).Add(time.Nanosecond),
@@ -285,9 +290,13 @@ func c13Random(c *core.Ctx, r *gen.Rand) {
 			}
 		case op < 50:
 			desc = fmt.Sprintf("Stop(%x)", id[:2])
-			if r.Bool() {
+			switch r.Intn(5) {
+			case 0, 1:
 				err = a.Stop(id)
-			} else {
+			case 2:
+				err = a.StopWithError(id, nil)
+				desc = "StopWithError-nil" + desc[4:]
+			default:
 				err = a.StopWithError(id, errCustomStop)
 				desc = "StopWithError" + desc[4:]
 			}
@@ -299,7 +308,9 @@ func c13Random(c *core.Ctx, r *gen.Rand) {
 			default:
 				wantErr = "nil"
 				delete(model, id)
-				if strings.HasPrefix(desc, "StopWithError") {
+				if strings.HasPrefix(desc, "StopWithError-nil") {
+					emit(id, evNilError)
+				} else if strings.HasPrefix(desc, "StopWithError") {
 					emit(id, evCustom)
 				} else {
 					emit(id, evStopped)
@@ -412,9 +423,116 @@ func sortStrings(s []string) {
 	}
 }
 
+// c13Reentrant: groups A (deadline < t1), B (t1 <= deadline < t2), C (>= t2). The handler, on the k-th event it sees,
+// calls Collect(t2). The outer call is Collect(t1), or a Stop/Process of some transaction.
+func c13Reentrant(c *core.Ctx, r *gen.Rand) {
+	type tid = [stun.TransactionIDSize]byte
+	t1, t2 := amEpoch.Add(time.Second), amEpoch.Add(2*time.Second)
+	events := map[tid][]string{}
+	var a *stun.Agent
+	seen, trigger := 0, r.Intn(3)
+	outer := r.Intn(3)
+	if outer != 0 {
+		trigger = 0
+	}
+	nestedErr := "not-called"
+	a = stun.NewAgent(func(e stun.Event) {
+		events[e.TransactionID] = append(events[e.TransactionID], amEventClass(e))
+		if seen == trigger {
+			seen++
+			nestedErr = amErrClass(a.Collect(t2))
+
+			return
+		}
+		seen++
+	})
+	group := map[tid]byte{}
+	nA, nB, nC := 3+r.Intn(6), 1+r.Intn(6), r.Intn(4)
+	if r.Chance(1, 10) {
+		nA, nB = 100+r.Intn(100), 100+r.Intn(100)
+	}
+	i := 0
+	add := func(g byte, d time.Time) tid {
+		var id tid
+		id[0], id[1], id[2] = byte(i), byte(i>>8), g
+		i++
+		group[id] = g
+		_ = a.Start(id, d)
+
+		return id
+	}
+	var first tid
+	for k := 0; k < nA; k++ {
+		id := add('A', t1.Add(-time.Duration(1+r.Intn(1000))*time.Nanosecond))
+		if k == 0 {
+			first = id
+		}
+	}
+	for k := 0; k < nB; k++ {
+		add('B', t1.Add(time.Duration(r.Intn(1000))*time.Millisecond)) // includes deadline == t1
+	}
+	for k := 0; k < nC; k++ {
+		add('C', t2.Add(time.Duration(r.Intn(1000))*time.Millisecond)) // includes deadline == t2
+	}
+	want := map[tid]string{}
+	for id, g := range group {
+		if g == 'A' || g == 'B' {
+			want[id] = evTimeout
+		}
+	}
+	var oerr error
+	switch outer {
+	case 0:
+		oerr = a.Collect(t1)
+	case 1:
+		oerr = a.Stop(first)
+		want[first] = evStopped
+	default:
+		oerr = a.Process(&stun.Message{TransactionID: first})
+		want[first] = evMessage
+	}
+	c.Eval(1)
+	c.Count("calls_compared", 2)
+	c.Count("reentrant_calls", 1)
+	problem := ""
+	if amErrClass(oerr) != "nil" || nestedErr != "nil" {
+		problem = fmt.Sprintf("outer call returned %s, nested Collect returned %s", amErrClass(oerr), nestedErr)
+	}
+	for id, w := range want {
+		if len(events[id]) != 1 || events[id][0] != w {
+			problem = fmt.Sprintf("transaction %x (group %c): events %v, specification: exactly one %s", id[:3], group[id], events[id], w)
+		}
+	}
+	for id, evs := range events {
+		if _, ok := want[id]; !ok && len(evs) > 0 {
+			problem = fmt.Sprintf("transaction %x (group %c, deadline not before the nested collect time): events %v", id[:3], group[id], evs)
+		}
+	}
+	c.Count("events_compared", int64(len(events)))
+	if problem != "" {
+		c.Violate("spec-mismatch-reentrant", "spec-mismatch:Collect-from-handler", map[string]interface{}{
+			"outer_call": []string{"Collect(t1)", "Stop(a0)", "Process(a0)"}[outer], "groups": fmt.Sprintf("A=%d B=%d C=%d", nA, nB, nC), "handler_calls_Collect_on_event": trigger, "problem": problem,
+		})
+
+		return
+	}
+	// group C is still registered
+	closed := 0
+	_ = a.SetHandler(func(e stun.Event) {
+		if amEventClass(e) == evClosed {
+			closed++
+		}
+	})
+	_ = a.Close()
+	if closed != nC {
+		c.Violate("spec-mismatch-reentrant", "spec-mismatch:Close-after-reentrant-collect", map[string]interface{}{"remaining": nC, "closed_events": closed})
+	}
+	c.Distinct(r.U64())
+}
+
 // c13Mass registers n transactions with deadlines on both sides of a collect time and collects once.
 func c13Mass(c *core.Ctx, r *gen.Rand) {
-	n := r.PickInt([]int{1, 99, 100, 101, 137, 100 + r.Intn(400), 1000})
+	n := r.PickInt([]int{1, 99, 100, 101, 137, 100 + r.Intn(400), 1000, 3500, 3600 + r.Intn(2000), 9000})
 	timeouts := map[[stun.TransactionIDSize]byte]int{}
 	others := 0
 	a := stun.NewAgent(func(e stun.Event) {
